@@ -1,6 +1,6 @@
 (* C17 — property theorems only: each restates the full statement and is closed by the lemma proved in Proofs/. *)
 From Coq Require Import ZArith List Bool.
-From NPS Require Import ListAux PySlice NumpySem Scatter BuildIdx XorBroadcast View Index Assign Reduce Scan RaOps Heap Hash HashRun BitArr RLE RLEOps RLE2d DataClass RowsSpec AssignSpec MapSpec Denote RLEMisc BinaryProof RL2Proof RL2Col RL2Ravel RL2Elem RL2Argmax MatrixDecode ColProof RL2ColSum RL2ColCounts RL2Intervals RL2Range RL2RangeStep RL2RangeOpen RL2AnyProof RL2AnyRows.
+From NPS Require Import ListAux PySlice NumpySem Scatter BuildIdx XorBroadcast View Index Assign Reduce Scan RaOps Heap Hash HashRun BitArr RLE RLEOps RLE2d DataClass RowsSpec AssignSpec MapSpec Denote RLEMisc BinaryProof RL2Proof RL2Col RL2Ravel RL2Elem RL2Argmax MatrixDecode ColProof RL2ColSum RL2ColCounts RL2Intervals RL2Range RL2RangeStep RL2RangeOpen RL2AnyProof RL2AnyRows RL2Mean RL2ColMean RL2RowAgg RL2RowAggProof RL2RowAggMatrix.
 Import ListNotations.
 Open Scope Z_scope.
 
@@ -118,6 +118,67 @@ Theorem C17_rl2_col_counts_correct :
        map (fun j : Z => cnt (fun l : Z => j <? l) lens) (ap 0 (fold_left Z.max lens 0) 1).
 Proof. exact rl2_col_counts_correct. Qed.
 Print Assumptions C17_rl2_col_counts_correct.
+
+Theorem C17_rl2_col_mean_correct :
+  forall (C : Type) (ceqb : C -> C -> bool),
+       (forall x y : C, ceqb x y = true -> x = y) ->
+       forall (dv : Z -> Z -> C) (rows : list (list Z * list Z)),
+       rows <> [] ->
+       Forall (fun p : list Z * list Z => canon Z (fst p) (snd p) /\ fst p <> []) rows ->
+       let dense := rl2_decode (of_runs rows) in
+       exists r : rla C,
+         rl2_col_mean C ceqb dv (of_runs rows) = Ok r /\
+         decode C r =
+         map
+           (fun j : Z =>
+            dv (zsum (map (fun r0 : list Z => nth (Z.to_nat j) r0 0) dense))
+              (cnt (fun l : Z => j <? l) (map zlen dense))) (ap 0 (fold_left Z.max (map zlen dense) 0) 1) /\
+         CanonProof.no_adj C ceqb (snd r).
+Proof. exact rl2_col_mean_correct. Qed.
+Print Assumptions C17_rl2_col_mean_correct.
+
+Theorem C17_rl2_any_rows_correct :
+  forall x : rl2,
+       length (r_idx x) = length (r_val x) ->
+       Forall (row_runs_ok x) (rows_of2 x) -> rl2_any_rows x = map (existsb nz) (rl2_decode x).
+Proof. exact rl2_any_rows_correct. Qed.
+Print Assumptions C17_rl2_any_rows_correct.
+
+Theorem C17_rl2_all_rows_correct :
+  forall x : rl2,
+       length (r_idx x) = length (r_val x) ->
+       Forall (row_runs_ok x) (rows_of2 x) -> rl2_all_rows x = map (forallb nz) (rl2_decode x).
+Proof. exact rl2_all_rows_correct. Qed.
+Print Assumptions C17_rl2_all_rows_correct.
+
+Theorem C17_rl2_mean_rows_correct :
+  forall (C : Type) (dv : Z -> Z -> C) (x : rl2),
+       r_len x = None ->
+       length (r_idx x) = length (r_val x) ->
+       Forall (fun p : list Z * list Z => row_runs_ok x p /\ hd 0 (fst p) = 0 /\ fst p <> []) (rows_of2 x) ->
+       rl2_mean_rows dv x = map (fun d : list Z => dv (zsum d) (zlen d)) (rl2_decode x).
+Proof. exact (@rl2_mean_rows_correct). Qed.
+Print Assumptions C17_rl2_mean_rows_correct.
+
+Theorem C17_ragged_row_aggregates :
+  forall (C : Type) (dv : Z -> Z -> C) (rows : list (list Z)),
+       Forall (fun r : list Z => r <> []) rows ->
+       let x := from_ragged rows in
+       rl2_any_rows x = map (existsb nz) rows /\
+       rl2_all_rows x = map (forallb nz) rows /\
+       rl2_mean_rows dv x = map (fun d : list Z => dv (zsum d) (zlen d)) rows.
+Proof. exact (@ragged_row_aggregates). Qed.
+Print Assumptions C17_ragged_row_aggregates.
+
+Theorem C17_matrix_row_aggregates :
+  forall (M : list (list Z)) (L : Z),
+       M <> [] ->
+       1 <= L ->
+       Forall (fun r : list Z => zlen r = L) M ->
+       rl2_any_rows (from_matrix M) = map (existsb RL2AnyRows.nz) M /\
+       rl2_all_rows (from_matrix M) = map (forallb RL2AnyRows.nz) M.
+Proof. exact matrix_row_aggregates. Qed.
+Print Assumptions C17_matrix_row_aggregates.
 
 Theorem C17_from_intervals_decode :
   forall (starts ends : list Z) (n value : Z),
@@ -237,7 +298,7 @@ Theorem C17_col_any_matrix :
        1 <= L ->
        Forall (fun r : list Z => zlen r = L) M ->
        decode bool (RL2Any.col_any (from_matrix M)) =
-       map (fun p : Z => existsb (fun row : list Z => nz (nth (Z.to_nat p) row 0)) M) (ap 0 L 1).
+       map (fun p : Z => existsb (fun row : list Z => RL2AnyRows.nz (nth (Z.to_nat p) row 0)) M) (ap 0 L 1).
 Proof. exact col_any_matrix. Qed.
 Print Assumptions C17_col_any_matrix.
 
